@@ -162,6 +162,9 @@ func (c *XAConn) BeginTx(ctx context.Context, opts driver.TxOptions) (driver.Tx,
 		}
 
 		c.xaBranchXid = XaIdBuild(c.txCtx.XID, c.txCtx.BranchID)
+		// from here on the connection belongs to a branch in phase one: the two-phase hold timeout, which
+		// looks at kept connections, must not take it for a prepared branch nobody came back for
+		c.xaActive = true
 		c.keepIfNecessary()
 
 		if err = c.start(ctx); err != nil {
